@@ -221,59 +221,112 @@ func runC12(c *Ctx, r *Rec) {
 		}
 		nReaders++
 		construct := c.fdName(fd)
-		g := newFG(info, fd.Body)
-		// the check:  token.GetType() == ErrorToken  whose true edge panics
-		var check ast.Expr
-		ast.Inspect(fd.Body, func(x ast.Node) bool {
-			is, ok := x.(*ast.IfStmt)
-			if !ok {
-				return true
-			}
-			be, ok := ast.Unparen(is.Cond).(*ast.BinaryExpr)
-			if !ok || be.Op != token.EQL {
-				return true
-			}
-			for _, pr := range [][2]ast.Expr{{be.X, be.Y}, {be.Y, be.X}} {
-				rx, mname, _, ok := methodCall(ast.Unparen(pr[0]))
-				id, isId := ast.Unparen(pr[1]).(*ast.Ident)
-				if ok && mname == "GetType" && isObj(info, rx, tokObj) && isId && info.Uses[id] == errTok {
-					panics := false
-					for _, s := range is.Body.List {
-						if es, ok := s.(*ast.ExprStmt); ok {
-							if call, ok := es.X.(*ast.CallExpr); ok && noReturnCall(info, call) {
-								panics = true
+		// verdictIn: in function hfd the token bound to tokObj by statement read reaches a return only through
+		// the test  token.GetType() == ErrorToken  whose true edge panics
+		var verdictIn func(hfd *ast.FuncDecl, read ast.Node, tokObj types.Object, depth int) string
+		verdictIn = func(hfd *ast.FuncDecl, read ast.Node, tokObj types.Object, depth int) string {
+			g := newFG(info, hfd.Body)
+			var check ast.Expr
+			ast.Inspect(hfd.Body, func(x ast.Node) bool {
+				is, ok := x.(*ast.IfStmt)
+				if !ok {
+					return true
+				}
+				// the test may be one conjunct of the condition (unread && token.GetType() == ErrorToken)
+				var conj []ast.Expr
+				var split func(e ast.Expr)
+				split = func(e ast.Expr) {
+					if b, ok := ast.Unparen(e).(*ast.BinaryExpr); ok && b.Op == token.LAND {
+						split(b.X)
+						split(b.Y)
+						return
+					}
+					conj = append(conj, ast.Unparen(e))
+				}
+				split(is.Cond)
+				for _, cj := range conj {
+					be, ok := cj.(*ast.BinaryExpr)
+					if !ok || be.Op != token.EQL {
+						continue
+					}
+					for _, pr := range [][2]ast.Expr{{be.X, be.Y}, {be.Y, be.X}} {
+						rx, mname, _, ok := methodCall(ast.Unparen(pr[0]))
+						id, isId := ast.Unparen(pr[1]).(*ast.Ident)
+						if ok && mname == "GetType" && isObj(info, rx, tokObj) && isId && info.Uses[id] == errTok {
+							panics := false
+							for _, s := range is.Body.List {
+								if es, ok := s.(*ast.ExprStmt); ok {
+									if call, ok := es.X.(*ast.CallExpr); ok && noReturnCall(info, call) {
+										panics = true
+									}
+								}
+							}
+							if panics {
+								check = is.Cond
 							}
 						}
 					}
-					if panics {
-						check = is.Cond
+				}
+				return true
+			})
+			if check == nil {
+				// a private reader may leave the test to the methods that call it
+				if fn := c.funcOf(hfd); fn != nil && !fn.Exported() && depth < 2 {
+					callers, worst := 0, ""
+					for _, cname := range sortedKeys(pms) {
+						cfd := pms[cname]
+						if cfd == hfd {
+							continue
+						}
+						ast.Inspect(cfd.Body, func(x ast.Node) bool {
+							lhs, rhs, ok := multiDef(x)
+							if !ok || len(lhs) < 1 {
+								return true
+							}
+							call, isCall := ast.Unparen(rhs).(*ast.CallExpr)
+							if !isCall {
+								return true
+							}
+							if cf := calleeOf(info, call); cf == nil || cf.Origin() != fn.Origin() {
+								return true
+							}
+							if o := identObj(info, lhs[0]); o != nil {
+								callers++
+								if v := verdictIn(cfd, x, o, depth+1); v != "" {
+									worst = v
+								}
+							}
+							return true
+						})
+					}
+					if callers > 0 {
+						return worst
 					}
 				}
+				return "the token read from the queue is returned without the test `token.GetType() == ErrorToken -> diagnostic panic`: an illegal character is then treated as an ordinary unexpected token or silently skipped"
 			}
-			return true
-		})
-		bad := ""
-		if check == nil {
-			bad = "the token read from the queue is returned without the test `token.GetType() == ErrorToken -> diagnostic panic`: an illegal character is then treated as an ordinary unexpected token or silently skipped"
-		} else if pt, ok := g.after(read); ok {
-			skip, _ := g.exists(pathQuery{from: pt,
-				stop: func(n ast.Node) bool { return containsNode(n, check) || containsNode(check, n) },
-				goalNode: func(n ast.Node) bool {
-					rs, ok := n.(*ast.ReturnStmt)
-					if !ok {
-						return false
-					}
-					for _, e := range rs.Results {
-						if isObj(info, e, tokObj) {
-							return true
+			if pt, ok := g.after(read); ok {
+				skip, _ := g.exists(pathQuery{from: pt,
+					stop: func(n ast.Node) bool { return containsNode(n, check) || containsNode(check, n) },
+					goalNode: func(n ast.Node) bool {
+						rs, ok := n.(*ast.ReturnStmt)
+						if !ok {
+							return false
 						}
-					}
-					return false
-				}})
-			if skip {
-				bad = "a path from the queue read to the return of the token bypasses the error-token test"
+						for _, e := range rs.Results {
+							if isObj(info, e, tokObj) {
+								return true
+							}
+						}
+						return false
+					}})
+				if skip {
+					return "a path from the queue read to the return of the token bypasses the error-token test"
+				}
 			}
+			return ""
 		}
+		bad := verdictIn(fd, read, tokObj, 0)
 		r.check(bad == "", "D3-error-token-diagnostic", construct, c.pos(fd.Pos()), "every path from the queue read to the return passes the error-token test, whose true edge panics with the diagnostic", bad)
 	}
 	r.count("token readers", nReaders)
@@ -605,9 +658,11 @@ func checkScannerNotAbandoned(c *Ctx, r *Rec, info *types.Info, st *scanTables, 
 	sfd := st.scanFD
 	g := newFG(info, sfd.Body)
 	var closeCall ast.Node
+	var closeCalls []ast.Node // an early exit may close the queue by itself
 	ast.Inspect(sfd.Body, func(x ast.Node) bool {
 		if _, mname, call, ok := methodCall(x); ok && mname == "CloseQueue" {
 			closeCall = call
+			closeCalls = append(closeCalls, call)
 		}
 		return true
 	})
@@ -616,7 +671,14 @@ func checkScannerNotAbandoned(c *Ctx, r *Rec, info *types.Info, st *scanTables, 
 		bad = "the scanner goroutine never closes the token queue: a reader that drains the queue after a diagnostic cannot know when the scanner is done, and without a drain the scanner stays blocked in AddValue on a full queue for ever (one leaked goroutine per failed parse with more than queue-capacity tokens outstanding)"
 	} else {
 		miss, _ := g.exists(pathQuery{from: point{g.entry(), 0},
-			stop:     func(n ast.Node) bool { return containsNode(n, closeCall) },
+			stop: func(n ast.Node) bool {
+				for _, cc := range closeCalls {
+					if containsNode(n, cc) {
+						return true
+					}
+				}
+				return false
+			},
 			goalExit: func(kind int, _ *cfg.Block) bool { return kind == exitReturn }})
 		if miss {
 			bad = "a path through the scanner goroutine ends without closing the token queue"
